@@ -2,6 +2,7 @@
 package main
 
 import (
+	"sync"
 	"reflect"
 	"encoding/json"
 	"bytes"
@@ -43,11 +44,41 @@ type namedSimplifier struct {
 	s    orb.Simplifier
 }
 
-var simplifiers = []namedSimplifier{
-	{"DouglasPeucker(0.5)", simplify.DouglasPeucker(0.5)}, {"DouglasPeucker(50)", simplify.DouglasPeucker(50)},
-	{"Radial(0.5)", simplify.Radial(planar.Distance, 0.5)}, {"Radial(50)", simplify.Radial(planar.Distance, 50)},
-	{"VisvalingamThreshold(0.5)", simplify.VisvalingamThreshold(0.5)}, {"VisvalingamThreshold(50)", simplify.VisvalingamThreshold(50)},
-	{"VisvalingamKeep(3)", simplify.VisvalingamKeep(3)}, {"Visvalingam(50,2)", simplify.Visvalingam(50, 2)},
+// simplifierSpecs: the generic entry point is called on one long-lived simplifier per worker (whose history grows
+// with every execution), the kind-specific methods it is compared with on a fresh simplifier each time.
+var simplifierSpecs = []struct {
+	name string
+	mk   func() orb.Simplifier
+}{
+	{"DouglasPeucker(0.5)", func() orb.Simplifier { return simplify.DouglasPeucker(0.5) }}, {"DouglasPeucker(50)", func() orb.Simplifier { return simplify.DouglasPeucker(50) }},
+	{"Radial(0.5)", func() orb.Simplifier { return simplify.Radial(planar.Distance, 0.5) }}, {"Radial(50)", func() orb.Simplifier { return simplify.Radial(planar.Distance, 50) }},
+	{"VisvalingamThreshold(0.5)", func() orb.Simplifier { return simplify.VisvalingamThreshold(0.5) }}, {"VisvalingamThreshold(50)", func() orb.Simplifier { return simplify.VisvalingamThreshold(50) }},
+	{"VisvalingamKeep(3)", func() orb.Simplifier { return simplify.VisvalingamKeep(3) }}, {"Visvalingam(50,2)", func() orb.Simplifier { return simplify.Visvalingam(50, 2) }},
+}
+
+var (
+	liveMu   sync.Mutex
+	liveSimp = map[[2]int]orb.Simplifier{}
+)
+
+type liveSimplifier struct {
+	name string
+	s    orb.Simplifier        // long-lived, per worker
+	mk   func() orb.Simplifier // fresh
+}
+
+func simplifiersOf(worker int) []liveSimplifier {
+	liveMu.Lock()
+	defer liveMu.Unlock()
+	var out []liveSimplifier
+	for i, sp := range simplifierSpecs {
+		k := [2]int{worker, i}
+		if liveSimp[k] == nil {
+			liveSimp[k] = sp.mk()
+		}
+		out = append(out, liveSimplifier{sp.name, liveSimp[k], sp.mk})
+	}
+	return out
 }
 
 func registry() []entry {
@@ -420,22 +451,23 @@ func main() {
 		}
 		// typed vs generic for the simplifiers: Simplify(g) is what the method for g's kind returns, at the top
 		// level and for every member of a collection
-		for _, sp := range simplifiers {
+		for _, sp := range simplifiersOf(c.Worker) {
 			var typed func(m orb.Geometry) orb.Geometry
 			typed = func(m orb.Geometry) orb.Geometry {
+				fresh := sp.mk()
 				switch v := orb.Clone(m).(type) {
 				case orb.LineString:
-					return sp.s.LineString(v)
+					return fresh.LineString(v)
 				case orb.Ring:
-					return sp.s.Ring(v)
+					return fresh.Ring(v)
 				case orb.Polygon:
-					return sp.s.Polygon(v)
+					return fresh.Polygon(v)
 				case orb.MultiLineString:
-					return sp.s.MultiLineString(v)
+					return fresh.MultiLineString(v)
 				case orb.MultiPolygon:
-					return sp.s.MultiPolygon(v)
+					return fresh.MultiPolygon(v)
 				case orb.Collection:
-					return sp.s.Collection(v)
+					return fresh.Collection(v)
 				}
 				return nil
 			}
@@ -737,8 +769,10 @@ func main() {
 		{{0, 0}, {2, 0}, {2, 2}, {0, 2}, {0, 0}},
 		{{0.5, 0.5}, {0.5, 1.5}, {1.5, 1.5}, {1.5, 0.5}},
 		{{0.25, 0.25}, {1, 0.25}, {0.25, 1}, {0.25, 0.25}},
+		{{0, 0}, {1, 0.1}, {2, 0}, {1, 2}, {0, 0}},       // one vertex within 0.5 of its chord: the 0.5-threshold simplifiers drop it
+		{{0, 0}, {1, 0}, {2, 0}, {2, 1}, {2, 2}, {0, 0}}, // collinear vertices
 	}
-	r.Explore("ring-containers", fmt.Sprintf("every ordered pair of %d rings (3..4 vertices, closed and unclosed) x 6 container forms x the same entry points and checks", len(ringMenu)), mc.Opts{MaxDev: -1, NewLocal: newLocal, StopAfter: 1 << 30}, func(c *mc.Ctx) {
+	r.Explore("ring-containers", fmt.Sprintf("every ordered pair of %d rings (3..5 vertices, closed and unclosed, two with vertices the simplifiers drop) x 6 container forms x the same entry points and checks", len(ringMenu)), mc.Opts{MaxDev: -1, NewLocal: newLocal, StopAfter: 1 << 30}, func(c *mc.Ctx) {
 		a, b := ringMenu[c.Choose(len(ringMenu))].Clone(), ringMenu[c.Choose(len(ringMenu))].Clone()
 		var g orb.Geometry
 		switch c.Choose(6) {
